@@ -178,12 +178,30 @@ func termVal(t term) (any, error) {
 		if len(t.args)%2 != 0 {
 			return nil, fmt.Errorf("odd map")
 		}
+		var intKeys map[any]any // a key written `#!n` is the INTEGER n (a YAML mapping may have such keys)
 		for i := 0; i < len(t.args); i += 2 {
 			v, err := termVal(t.args[i+1])
 			if err != nil {
 				return nil, err
 			}
+			if k := t.args[i].name; strings.HasPrefix(k, "#!") {
+				n, err := strconv.Atoi(k[2:])
+				if err != nil {
+					return nil, err
+				}
+				if intKeys == nil {
+					intKeys = map[any]any{}
+				}
+				intKeys[n] = v
+				continue
+			}
 			out[t.args[i].name] = v
+		}
+		if intKeys != nil {
+			for k, v := range out {
+				intKeys[k] = v
+			}
+			return intKeys, nil
 		}
 		return out, nil
 	}
@@ -814,6 +832,12 @@ func (w *walker) scalarCases(fpath string, f flatField, fk string, tags []string
 var epHosts = []string{"", "localhost", "127.0.0.1", "example.org", "a-b.c", "256.1.1.1", "host_1", "-bad", "a..b", "a b",
 	"example.org.", "exa$mple", "[::1]", "[localhost]", "[]", "h:", "a.-b", "ü"}
 var epHostsShort = []string{"", "localhost", "127.0.0.1", "[::1]"}
+
+// IPv6 literals in brackets (net.ParseIP decides): well-formed, and every way of being malformed
+var epHosts6 = []string{"[::]", "[1::]", "[2001:db8::1]", "[1:2:3:4:5:6:7:8]", "[1:2:3:4:5:6:7:8:9]", "[1:2:3:4:5:6:7::8]", "[1:2:3:4:5:6:7::]",
+	"[::2:3:4:5:6:7:8]", "[::1:2:3:4:5:6:7:8]", "[::ffff:1.2.3.4]", "[1:2:3:4:5:6:1.2.3.4]", "[1:2:3:4:5:6:7:1.2.3.4]", "[1:2:3:4:5:1.2.3.4]",
+	"[::1.2.3.04]", "[::1.2.3]", "[::1.2.3.256]", "[::1.2.3.4.5]", "[12345::]", "[g::]", "[::1%25eth0]", "[1:::2]", "[:1]", "[1:]", "[1::2::3]",
+	"[fe80::1]", "[::FFFF:0:0]", "[0:0:0:0:0:0:0:0]", "[::1.2.3.4:5]", "[1.2.3.4::]", "[ffff:ffff:ffff:ffff:ffff:ffff:255.255.255.255]", "[:]", "[::.1.2.3]"}
 var epPorts = []string{"1", "80", "65535", "65536", "0", "99999", "-1", "+80", "080", "00", "http", "80a", "", " 80", "8 0", "1e3",
 	"0x50", "65_535", "99999999999999999999"}
 var epMalformed = []string{"", ":", "::", "no-port", "a:b:80", "[::1]", "[::1]80", "[a:80", "a]:80", "a[:80", "[[a]:80", "[a]]:80",
@@ -868,6 +892,13 @@ func (w *walker) consCases(fpath string, f flatField, fk string, tags []string, 
 			for _, h := range hosts {
 				for _, p := range epPorts {
 					meets("endpoint", h+":"+p, tstr(h+":"+p))
+				}
+			}
+			if w.root == "synth" {
+				for _, h := range epHosts6 {
+					for _, p := range []string{"80", "65536", ""} {
+						meets("endpoint-ipv6", h+":"+p, tstr(h+":"+p))
+					}
 				}
 			}
 			for _, e := range epMalformed {
@@ -1048,6 +1079,14 @@ func (w *walker) walkPlugin(fpath string, iface reflect.Type, set func(any) any,
 	w.add(gcase{kind: "plugin-badname", path: fpath, at: "-", exp: "reject", cfg: set(map[string]any{"type": "no-such-plugin"})})
 	w.add(gcase{kind: "plugin-nonstring", path: fpath, at: "-", exp: "reject", cfg: set(map[string]any{"type": 5})})
 	w.add(gcase{kind: "plugin-badname", path: fpath + "#empty", at: "-", exp: "reject", cfg: set(map[string]any{"type": ""})})
+	if bp, ok := basePlugin(iface).(map[string]any); ok {
+		// a key that is no string (YAML `5: x`) is no option of any plugin
+		ik := map[any]any{5: "x"}
+		for k, v := range bp {
+			ik[k] = v
+		}
+		w.add(gcase{kind: "plugin-intkey", path: fpath, at: "-", exp: "reject", cfg: set(ik)})
+	}
 	if bp, ok := basePlugin(iface).(map[string]any); ok {
 		// the `type` key in another letter case is the type key; two of them are one too many
 		up := map[string]any{}
@@ -1275,8 +1314,16 @@ func deepMerge(a, b any) any {
 
 // combos: several mutations at once (errors accumulate, lazily filled factories defer): no demand of the property is
 // attached, the real outcome is compared with the model's
-func combos(r *rand.Rand, cases []gcase, n int) []string {
+func combos(r *rand.Rand, all []gcase, n int) []string {
 	var out []string
+	// numbers at the edge of a type's range stay out of the combinations: an accepted one reaches the component's
+	// constructor (a step schedule up to 9.2e18 …), which is not config decoding
+	var cases []gcase
+	for _, c := range all {
+		if c.kind != "num" {
+			cases = append(cases, c)
+		}
+	}
 	if len(cases) < 2 {
 		return nil
 	}
@@ -1325,19 +1372,31 @@ var rawPool = map[string][]string{
 		"18446744073709551615", "18446744073709551616", "abc", "1.5", "", " 42", "4 2", "-", "+", "--1", "1-", "true", "7s",
 		// strconv with base 0: prefixes, a leading 0 is octal, underscores between digits
 		"0x10", "0X1f", "0b101", "0B1", "0o17", "0O7", "017", "00", "-0x80", "+0b1", "0x7f", "0x80", "0xff", "0x100", "-0x81",
-		"1_000", "0_7", "0x_1", "0x1_f", "1_0_0", "_1", "1_", "1__0", "08", "0x", "0b", "0o", "0b2", "0xg", "0_x1", "0x_", "_", "42 "},
+		"1_000", "0_7", "0x_1", "0x1_f", "1_0_0", "_1", "1_", "1__0", "08", "0x", "0b", "0o", "0b2", "0xg", "0_x1", "0x_", "_", "42 ",
+		// float texts are no integer literals (whole or not)
+		"1e3", "2.0", "2.5e0", "0x1p4"},
 	"float": {"0", "1", "-1", "2.5", "-0.5", "+0.25", "100", "0.125", "12345.5", "-0.0", "abc", "", "1.2.3", "-", "1,5", "true",
 		"1e3", "1.5E-2", ".5", "5.", "-.5e1", "1e+2", "0.1e1", "25e-2", "1e", "e3", ".", "1e+", "1.5e2.5", "+.e1", " 1",
 		// the range of the width: a float32 ends a little above 3.4e38, a float64 a little below 1.8e308
-		"3.4e38", "3.5e38", "1e39", "-1e39", "-3.4e38", "1e308", "1e309", "-1e400"},
+		"3.4e38", "3.5e38", "1e39", "-1e39", "-3.4e38", "1e308", "1e309", "-1e400",
+		// hexadecimal floats (the binary exponent is mandatory) and `_` between digits
+		"0x1p-2", "0x1.8p1", "0X.8P+0", "-0x10p-1", "0x1", "0x1p", "0x.p1", "0xgp1", "0x1p1.5", "1_000.5", "1_.5", "1._5", "0x_1p0", "0x1_0p0",
+		"1e1_0", "1_e1", "1e_1", "_1.5", "1.5_", "0b1", "0o7", "017.5"},
 	"bool":  {"1", "t", "T", "TRUE", "true", "True", "0", "f", "F", "FALSE", "false", "False", "yes", "no", "tRuE", "", "2", "on", " true"},
 	"dur": {"0", "7s", "1m30s", "250ms", "-5s", "+3s", "1h2m3s4ms5us6ns", "90m", "1000", "-1", "5x", "s", "1s2", "", "abc", "1 s", "--1s",
-		"9223372036854775807", "9223372036854775808", "2562047h"},
+		"9223372036854775807", "9223372036854775808", "2562047h",
+		// fractions, both micro signs, the edges of the int64 range
+		"1.5s", ".5m", "1.s", ".s", "1.5", "1.5h30m", "0.001ms", "3.25us", "1µs", "1μs", "1.0ns", "00.50s", "1s.5ms", "1..5s", "1.5.5s", "0.0s",
+		"+0", "-0", "2562048h", "2562047h47m16.854775807s", "2562047h47m16.854775808s", "-2562047h47m16.854775808s",
+		"9223372036854775807ns", "9223372036854775808ns", "-9223372036854775808ns", "9223372036854775809ns", "1us1", "1m 30s"},
 	"str": {"", "hello", "a b", " padded ", "trail ", " lead", "with=eq", "with#hash", "${env:C17_STR}", "x:y", "%41", "ü", "tab\there", "'q'", "{}", "$", "${", "}"},
 }
 
 // texts at the edge of a width: always part of the quick tier
-var rawEdge = map[string]bool{"3.4e38": true, "3.5e38": true, "1e39": true, "-1e39": true, "1e308": true, "1e309": true,
+var rawEdge = map[string]bool{"1.5": true, "1e3": true, "2.0": true,
+	"0x1p-2": true, "1_000.5": true, "0x1": true, "1.5s": true, ".5m": true, "2562048h": true,
+	"2562047h47m16.854775808s": true, "-2562047h47m16.854775808s": true,
+	"3.4e38": true, "3.5e38": true, "1e39": true, "-1e39": true, "1e308": true, "1e309": true,
 	"127": true, "128": true, "-128": true, "-129": true, "255": true, "256": true, "65535": true, "65536": true,
 	"9223372036854775807": true, "9223372036854775808": true, "18446744073709551615": true, "18446744073709551616": true}
 
